@@ -446,7 +446,7 @@ class _Generator(Generator):
                 'else {'
             ] + [
                 '    dst_p->{}is_{}_addition_present = false;'.format(
-                    self.location_inner('', '.'), addition.name)
+                    self.location_inner('', '.'), canonical(addition.name))
                 for addition in type_.additions] + [
                 '}'
             ]
@@ -507,7 +507,7 @@ class _Generator(Generator):
             encode_lines += [
                 '',
                 'if (src_p->{}is_{}_addition_present) {{'.format(
-                    self.location_inner('', '.'), addition.name),
+                    self.location_inner('', '.'), canonical(addition.name)),
                 '    {} |= {}u;'.format(addition_mask, mask),
                 '}'
             ]
@@ -576,7 +576,7 @@ class _Generator(Generator):
             encode_lines += [
                 '',
                 'if (src_p->{}is_{}_addition_present) {{'
-                .format(self.location_inner('', '.'), addition.name)
+                .format(self.location_inner('', '.'), canonical(addition.name))
             ] + indent_lines(wrapped_encoder_lines + addition_encode_lines) + [
                 '}'
             ]
@@ -586,7 +586,7 @@ class _Generator(Generator):
                 '(({addition_bits} > {current_bit}u) && '
                 '(({addition_mask}[{index}] & {mask}u) == {mask}u));'.format(
                     location=self.location_inner('', '.'),
-                    name=addition.name,
+                    name=canonical(addition.name),
                     addition_bits=unique_addition_bits,
                     current_bit=i,
                     addition_mask=unique_addition_mask,
@@ -595,7 +595,7 @@ class _Generator(Generator):
                 '',
                 'if (dst_p->{location}is_{name}_addition_present) {{'.format(
                     location=self.location_inner('', '.'),
-                    name=addition.name),
+                    name=canonical(addition.name)),
                 '    (void)decoder_read_length_determinant(decoder_p);'
             ] + indent_lines(addition_decode_lines) + [
                 '}',
